@@ -63,7 +63,10 @@ def run(ctx):
     ctx.rule("R-C16-1", "the generator and both kernels run only under p > 0 and p < 1; otherwise InvalidArgument")
     pname = gnp.local_name(2) or "edge_probability"
     want = {(">", 0.0), ("<", 1.0)}
-    work = [t for t in gnp.calls() if t.callee and t.callee.target_path(prog) in (kd.path, ku.path, prog.one("random::get_random_number_generator").path)]
+    # the kernels, and wherever the generator is made: the factory helper if there is one, else the
+    # seed_from_u64 / thread_rng calls written directly in fast_gnp_random_graph
+    gen_paths = {b_.path for b_ in prog.find("random::get_random_number_generator")}
+    work = [t for t in gnp.calls() if t.callee and (t.callee.target_path(prog) in ({kd.path, ku.path} | gen_paths) or t.callee.short.endswith("SeedableRng::seed_from_u64"))]
     if not ctx.floor("R-C16-1", "guarded_calls", len(work), 2):
         return
     for t in work:
